@@ -387,6 +387,14 @@ impl KeyExchangeClient {
 
         let response = KeyExchangeResponse::parse(&mut io).await?;
 
+        // The server has to choose among what we offered (RFC 8915, sections 4.1.2 and 4.1.5):
+        // never adopt a protocol or algorithm that was not part of our request.
+        if !self.protocols.contains(&response.protocol)
+            || !self.algorithms.contains(&response.algorithm)
+        {
+            return Err(NtsError::Invalid);
+        }
+
         let keys = NtsKeys::extract_from_connection(
             io.get_ref().1,
             response.protocol,
